@@ -16,7 +16,7 @@ from ref import lp as R2
 from .common import viol, ImplRun, close, asset_nodes
 
 PROPERTY = "C09"
-RULE = ("E3: 6 base portfolios (mixed wacc + two-node storage; transport + spread contract; structured asset with inner assets; "
+RULE = ("E3: 7 base portfolios (incl. an order book with an order behind the grid) (mixed wacc + two-node storage; transport + spread contract; structured asset with inner assets; "
         "linked plants MIP; assets on the same coarser grid with different wacc; structured asset with own life time over inner assets with own life times, "
         "whose wrapped portfolio is permuted as well) x all permutations x asset-name tuples drawn from the pool {a,1a,11,1,a1,0,a_2,n} x node-name "
         "tuples from {n,1n,n1,1,in,out,hub,hub_south} x grids T=4 and T=12; distinct = canonical variant; non-trivial = base and "
@@ -66,6 +66,14 @@ def base_portfolio(name, g):
         return [dict(type="SimpleContract", name="A0", nodes=["N0"], price="p", min_cap=r(-5.0, g), max_cap=r(5.0, g)),
                 dict(type="StructuredAsset", name="A1", nodes=["N0"], portfolio=inner, start=g.instant_iso(("gp", 1))),
                 dict(type="SimpleContract", name="A4", nodes=["N0"], price="q", min_cap=0.0, max_cap=r(1.0, g))]
+    if name == "orderbook":   # an order book whose last order lies behind the grid (a variable without any time step)
+        ob = dict(type="OrderBook", name="A1", nodes=["N0"],
+                  orders=dict(start=[g.instant_iso(("gp", 1)), g.instant_iso(("gp", 0)), g.instant_iso(("after", 1))],
+                              end=[g.instant_iso(("gp", g.T - 1)), g.instant_iso(("gp", 2)), g.instant_iso(("after", 3))],
+                              capa=[r(2.0, g), r(-1.0, g), r(-2.0, g)], price=[2.5, 4.5, 50.0]))
+        return [dict(type="SimpleContract", name="A0", nodes=["N0"], price="p", min_cap=r(-5.0, g), max_cap=r(5.0, g)),
+                ob,
+                dict(type="Storage", name="A2", nodes=["N0"], size=8.0, cap_in=r(1.0, g), cap_out=r(2.0, g), start_level=0.0, end_level=0.0, cost_in=0.1)]
     if name == "linked":
         p1 = dict(type="Plant", name="A2", nodes=["N0"], price="fuelc", min_cap=r(1.0, g), max_cap=r(4.0, g), start_costs=2.0, time_already_off=10)
         p2 = dict(type="Plant", name="A3", nodes=["N0"], price="ec", min_cap=r(1.0, g), max_cap=r(3.0, g), time_already_off=10)
@@ -121,7 +129,7 @@ def rename(assets, amap, nmap):
 
 def build_cases(tier):
     cases = []
-    bases = ["wacc_sto2", "transport", "structured", "linked", "coarse_wacc", "structured_win"]
+    bases = ["wacc_sto2", "transport", "structured", "linked", "coarse_wacc", "structured_win", "orderbook"]
     grids = ["4x6h", "12x2h"]
     for base, gname in itertools.product(bases, grids):
         g = Grid.from_json(S.GRIDS[gname])
